@@ -1,4 +1,17 @@
 //go:build verif
 
-// Package mgr holds world harnesses (see DESIGN.md §4).
+// Package mgr holds the world harness of C20 ("the manager runs exactly the configured tasks,
+// one runner each, across restarts").
+//
+//	conf.go   configuration mixes (file + database), the reference merge function, rendering
+//	parte.go  part E: every mix through the real loadTasks, compared with the reference
+//	parts.go  part S: real Manager.Run / Restart / runTask / web.Handler.SaveIntegration under the
+//	          controlled scheduler; thread attribution (generation, runner, pair), the oracle
+//	dfs.go    the depth-first explorer (copy of package explore + slicing of one job over workers
+//	          + exploration window)
+//	c20.go    registration, run, replay
+//
+// Environment knobs (debugging only): C20_JOB=<topo>/<scen>[/<slice>], C20_BOUND=<n>,
+// C20_PARTS=<n>, C20_DEBUG=<file> (per-job exploration statistics), C20_POINTS=1 (choice points
+// of the first execution), C20_SELFCHECK=1 (every execution is replayed and the traces compared).
 package mgr
